@@ -28,7 +28,7 @@ use crate::{
     connection_provider::{ConnectionProvider, TlsConfig},
     name_server::NameServer,
     name_server_pool::{NameServerPool, NameServerTransportState, PoolContext},
-    net::DnsHandle,
+    net::{DnsError, DnsHandle, ForwardNSData, NetError},
     proto::{
         access_control::{AccessControlSet, AccessControlSetBuilder},
         op::{DnsRequestOptions, Message, Query},
@@ -438,8 +438,43 @@ impl<P: ConnectionProvider> RecursorDnsHandle<P> {
         // TODO: should we change DnsHandle to always be a single response? And build a totally custom handler for other situations?
         let mut response = match response.next().await {
             Some(Ok(r)) => r,
-            Some(Err(error)) => {
+            Some(Err(mut error)) => {
                 warn!(?query, %error, "lookup error");
+                // A negative response carries authority data (SOA, NS, glue) as well: apply the
+                // bailiwick rule and the answer filter to it before it is cached or returned.
+                if let NetError::Dns(DnsError::NoRecordsFound(no_records)) = &mut error {
+                    let acs = &self.pool_context.answer_address_filter;
+                    let keep = |record: &Record| {
+                        is_subzone(&zone, &record.name)
+                            && !record.data.ip_addr().is_some_and(|ip| acs.denied(ip))
+                    };
+                    if no_records
+                        .soa
+                        .as_ref()
+                        .is_some_and(|soa| !is_subzone(&zone, &soa.name))
+                    {
+                        no_records.soa = None;
+                    }
+                    if let Some(ns) = no_records.ns.take() {
+                        let kept = ns
+                            .iter()
+                            .filter(|data| keep(&data.ns))
+                            .map(|data| ForwardNSData {
+                                ns: data.ns.clone(),
+                                glue: data.glue.iter().filter(|g| keep(g)).cloned().collect(),
+                            })
+                            .collect::<Vec<_>>();
+                        no_records.ns = (!kept.is_empty()).then(|| kept.into());
+                    }
+                    if let Some(authorities) = no_records.authorities.take() {
+                        let kept = authorities
+                            .iter()
+                            .filter(|r| keep(r))
+                            .cloned()
+                            .collect::<Vec<_>>();
+                        no_records.authorities = (!kept.is_empty()).then(|| kept.into());
+                    }
+                }
                 self.response_cache.insert(query, Err(error.clone()), now);
                 return Err(RecursorError::from(error));
             }
